@@ -54,6 +54,11 @@ def _fe_runs(tier):
     for g in geoms:
         for e in ('int16', 'float'):
             r.append(dict(h='mc_fe', label='fe-%s-%s-allopts' % (g, e), args=['--geom', g, '--opts', 'all', '--enc', e]))
+    # input_endian different from the host: the explored front ends read byte-swapped input, the reference the native signal
+    for g in (['4x8', '3x7'] if tier == 'quick' else geoms):
+        for e in ('int16', 'float'):
+            r.append(dict(h='mc_fe', label='fe-%s-%s-bigendian' % (g, e), args=['--geom', g, '--opts', 'all', '--enc', e, '--endian', 'big']))
+    r.append(dict(h='mc_fe', label='fe-real-int16-bigendian', args=['--geom', 'real', '--opts', '0', '--enc', 'int16', '--endian', 'big']))
     r.append(dict(h='mc_fe', label='fe-real-int16', args=['--geom', 'real', '--opts', '0', '--enc', 'int16']))
     r.append(dict(h='mc_fe', label='fe-big-calls', args=['--big']))
     if tier == 'thorough':
@@ -666,9 +671,10 @@ CHECKS = {
              'size-1,size,size+1,size+shift,2size+1,rest}) x (output limit in {1,2,unlimited}) on an exact-size heap copy of the '
              'chunk; unconsumed samples are re-offered as a caller must; end of stream allowed in every state, i.e. every total '
              'length N in [0,3size+2shift]; state = (consumed, emitted, owed samples, overflow buffer, pre-emphasis prior, speech '
-             'buffer, noise tracker); oracle: frames bit-identical to the one-call run, counts, pointer/count agreement, progress',
+             'buffer, noise tracker); oracle: frames bit-identical to the one-call run, counts, pointer/count agreement, progress. The same '
+             'with input_endian=big (the host is little-endian): the explored front ends get the byte-swapped signal, the reference the native one',
         assumptions=['one fixed pseudo-random int16 signal with full-scale samples mixed in (the chunking code does not branch on sample values)',
-                     'dither off (process-global RNG)', 'native-endian input'] + TRUST,
+                     'dither off (process-global RNG)'] + TRUST,
     ),
     'C15': dict(
         title='endpointed speech segments are exact excerpts with consistent timestamps',
